@@ -50,6 +50,9 @@ func propC01(c *Ctx, r *Report) {
 	runGuardedTableFrac(c, r, "mathsel.spirv", "spirv/internal/codegen", "MathFunction", "prefix:GLSLstd450", spirvMathRef, nil, 0.7)
 	r.floor("guarded.MathFunction.sites", 60)
 	c.runBackendWalk(r, spirvBackend())
+	r.Clauses = append(r.Clauses, orderClause)
+	c.runOperandOrder(r, "order.spirv", inPkgs("spirv"))
+	r.floor("order.spirv", orderFloors["spirv"])
 	r.floor("tables.OpCode", 150)
 	r.floor("tables.Decoration", 10)
 	r.floor("tables.BuiltIn", 20)
